@@ -37,8 +37,13 @@ def install():
             sim.conn_count += 1
             label = ('C' if conn.is_client() else 'S') + str(sim.conn_count)
             conn._sim_label = label
+            conn._sim_owner = sim
             sim.conns[label] = conn
             sim.pkts[label] = []
+        elif getattr(conn, '_sim_owner', None) is not sim:
+            # a connection left over from an earlier run of this process
+            # (a run that hit its step cap, torn down by the collector)
+            return None
 
         return label
 
@@ -60,6 +65,10 @@ def install():
                     packet = packet.get_full_payload()
 
                 label = label_of(sim, conn)
+
+                if label is None:
+                    return
+
                 payload = bytes(packet)
                 sim.pkts[label].append(('S', pkttype, pktid, payload, ''))
                 sim.log('S', label, pkttype, digest_len(pkttype, payload))
@@ -79,6 +88,10 @@ def install():
                     packet = packet.get_full_payload()
 
                 label = label_of(sim, conn)
+
+                if label is None:
+                    return
+
                 payload = bytes(packet)
                 sim.pkts[label].append(('R', pkttype, pktid, payload, note))
                 sim.log('R', label, pkttype, digest_len(pkttype, payload),
@@ -94,6 +107,10 @@ def install():
 
         if sim is not None:
             label = label_of(sim, self)
+
+            if label is None:
+                return orig_newkeys(self, k, h)
+
             sim.escrow.setdefault(label, []).append(
                 (bytes(k), bytes(h), bytes(self._session_id or h)))
             kex = getattr(self, '_kex', None)
